@@ -171,6 +171,46 @@ func c09Run(cc *c09Case) ([]string, map[string]interface{}, error) {
 			}
 		}
 	}
+	// what FetchMatchingRules returned for one instance belongs to the caller: later calls on other instances
+	// (matching or executing) do not change it
+	if kbF, ferr := obs.InstanceOf(lib, obs.KBName, obs.KBVersion); ferr == nil {
+		sf := cc.States[0].Copy()
+		if dcf, derr := obs.NewDataContext(sf); derr == nil {
+			raw, rerr, pan := obs.FetchRaw(kbF, dcf, false)
+			if rerr == nil && pan == nil && len(raw) > 0 {
+				var then []string
+				for _, e := range raw {
+					then = append(then, e.RuleName)
+				}
+				for _, st := range cc.States {
+					if other, oerr := obs.InstanceOf(lib, obs.KBName, obs.KBVersion); oerr == nil {
+						so := st.Copy()
+						if dco, derr2 := obs.NewDataContext(so); derr2 == nil {
+							_, _, _ = obs.FetchRaw(other, dco, false)
+							_ = obs.Execute(other, dco, obs.RunOpts{MaxCycle: 3})
+						}
+					}
+				}
+				var now []string
+				for _, e := range raw {
+					if e == nil {
+						now = append(now, "<nil>")
+					} else {
+						now = append(now, e.RuleName)
+					}
+				}
+				if strings.Join(then, ",") != strings.Join(now, ",") {
+					v = append(v, fmt.Sprintf("the list FetchMatchingRules returned for one instance held %v; after calls on other instances the same slice holds %v", then, now))
+				}
+				for _, e := range raw {
+					if e != nil && kbF.RuleEntries[e.RuleName] != e {
+						v = append(v, fmt.Sprintf("FetchMatchingRules returned an entry for %s that is not this instance's own rule entry", e.RuleName))
+						break
+					}
+				}
+			}
+		}
+	}
 	// a data context is not tied to an instance: one that was first used with one instance (for a single cycle)
 	// is then executed with another instance, which must validate on whatever facts that left - its own
 	// Retract / Forget / Complete calls included
